@@ -1,7 +1,7 @@
 /-
   C04 — files of a group are delivered in order; none before its predecessor (receiver part).
 -/
-import StsModel.Lemmas.StageBasic
+import StsModel.Lemmas.StageFin
 
 namespace Sts.Stage
 
@@ -56,5 +56,327 @@ theorem positive_only_validated (s : State) (n : Name) (h : statusAnswer s n ≥
     stateOf s.mem n = some .logged := by
   unfold statusAnswer at h
   split at h <;> simp_all
+
+/-! ## order of the receive log -/
+
+/-- every record that carries a real predecessor is preceded by a record of that predecessor -/
+def OrderInv (s : State) : Prop :=
+  ∀ (pre : List LogRec) (r : LogRec) (post : List LogRec), s.disk.log = pre ++ r :: post →
+    r.prev ≠ "" → r.prev ≠ r.name → ∃ q ∈ pre, q.name = r.prev
+
+/-- guard: a record with a real predecessor is appended only when the log already has a
+    record of the predecessor -/
+def OrderG (s : State) : Prim → Prop
+  | .logAppend r => r.prev ≠ "" → r.prev ≠ r.name → ∃ q ∈ s.disk.log, q.name = r.prev
+  | _ => True
+
+theorem OrderG_mono (s : State) (q p : Prim) (h : OrderG s p) : OrderG (applyPrim s q) p := by
+  cases p <;> simp only [OrderG] at h ⊢
+  intro h1 h2
+  obtain ⟨r, hr, hn⟩ := h h1 h2
+  exact ⟨r, log_mono_prim s q r hr, hn⟩
+
+theorem OrderG_of_notFin (s : State) (p : Prim) (h : p.isFin = false) : OrderG s p := by
+  cases p <;> simp_all [OrderG, Prim.isFin]
+
+theorem OrderInv_step (s : State) (p : Prim) (hi : OrderInv s) (hg : OrderG s p) :
+    OrderInv (applyPrim s p) := by
+  intro pre r post hlog h1 h2
+  rw [applyPrim_log] at hlog
+  cases p with
+  | logAppend r0 =>
+    simp only at hlog
+    rcases List.eq_nil_or_concat post with hpost | ⟨post', b, hpost⟩
+    · subst hpost
+      have := List.append_inj' hlog (by simp)
+      obtain ⟨hpre, hr⟩ := this
+      simp only [List.cons.injEq, and_true] at hr
+      subst hr; subst hpre
+      exact hg h1 h2
+    · subst hpost
+      have h' : s.disk.log ++ [r0] = (pre ++ r :: post') ++ [b] := by simpa using hlog
+      have := List.append_inj' h' (by simp)
+      exact hi pre r post' this.1 h1 h2
+  | _ => exact hi pre r post hlog h1 h2
+
+/-- the finalize handler appends a record with a real predecessor only when the predecessor
+    has a record in the log (directly, or because its cache state is finalized / logged) -/
+theorem finh_OrderG (s : State) (hl : LoggedInv s) (n : Name) (now : Int) :
+    ∀ p ∈ finhEffects s n now, OrderG s p := by
+  intro p hp
+  cases hfin : p.isFin with
+  | false => exact OrderG_of_notFin s p hfin
+  | true =>
+    obtain ⟨k, e, _, _, _, hready, hp' | hp'⟩ := finh_fin_spec s n now p hp hfin
+    · subst hp'
+      intro h1 h2
+      simp only [finRec] at h1 h2 ⊢
+      have hy : (isFileReady s n e now).isYes = true := by rw [hready]; rfl
+      rcases held_until_pred s n e now h1 h2 hy with h | h | ⟨_, _, h⟩
+      · simp only [stateOf, Option.map_eq_some_iff] at h
+        obtain ⟨e', he', hs⟩ := h
+        exact hl _ e' he' (Or.inl hs)
+      · simp only [stateOf, Option.map_eq_some_iff] at h
+        obtain ⟨e', he', hs⟩ := h
+        exact hl _ e' he' (Or.inr hs)
+      · exact h
+    · subst hp'; trivial
+
+theorem effects_OrderG (H : Body → String) (s : State) (hl : LoggedInv s) (o : OpEv) :
+    Guards OrderG s (effects H s o) := by
+  apply Guards.of_forall_mono OrderG_mono
+  cases o with
+  | finh n now => exact finh_OrderG s hl n now
+  | _ =>
+    intro p hp
+    exact OrderG_of_notFin s p (effects_notFin H s _ (by intros; simp) p hp)
+
+/-- **log_order_respects_prev**: in every reachable state (any history of calls, worker
+    actions, timer and cleaner firings, crashes and crashes inside operations) every record
+    of the receive log whose file announced a real predecessor — one that the cleaner did
+    not clear — is preceded in the log by a record of that predecessor. -/
+theorem log_order_respects_prev {H : Body → String} {s : State} (hr : Reachable H s) :
+    ∀ (pre : List LogRec) (r : LogRec) (post : List LogRec), s.disk.log = pre ++ r :: post →
+      r.prev ≠ "" → r.prev ≠ r.name → ∃ q ∈ pre, q.name = r.prev := by
+  refine inv_reachable (H := H) (P := OrderInv) (G := OrderG) ?_ OrderInv_step ?_ ?_ hr
+  · intro pre r post h; simp [init] at h
+  · intro s h; exact h
+  · intro s o hr _; exact effects_OrderG H s (finalized_implies_logged hr) o
+
+/-! ## release of the files parked on a delivered file -/
+
+/-- the item a primitive pushes onto the finalize queue, if any -/
+def fqOf : Prim → Option (Name × Entry)
+  | .fqPush n e => some (n, e)
+  | _ => none
+
+theorem toCache_no_fqPush (m : Mem) (n : Name) (e : Entry) (st : FState) (now : Int) :
+    (toCache m n e st now).filterMap fqOf = [] := by
+  unfold toCache
+  simp only [List.filterMap_append, List.append_eq_nil_iff]
+  refine ⟨⟨?_, by simp [fqOf]⟩, ?_⟩
+  · split <;> simp [fqOf]
+  · split <;> simp [fqOf]
+
+/-- **released_when_pred_delivered** (operation level). When `finalize(n)` delivers — cache
+    state validated, cached hash = the item's hash, `<n>.wait` present — the items it pushes
+    onto the finalize queue are exactly, in order and multiplicity, the `(name, entry)` of the
+    wait-map entries parked on `n`, and it removes those entries (`waitTake n`). -/
+theorem released_when_pred_delivered (s : State) (n : Name) (e : Entry) (now : Int)
+    (hv : stateOf s.mem n = some .validated) (hh : (s.mem.cache n).map (·.hash) = some e.hash)
+    (hw : s.disk.wait n ≠ none) :
+    (finalizeEffects s n e now).filterMap fqOf = (s.mem.wait.filter (fun w => w.1 == n)).map (·.2)
+    ∧ Prim.waitTake n ∈ finalizeEffects s n e now := by
+  unfold finalizeEffects
+  have hc : ¬ (stateOf s.mem n ≠ some .validated ∨ (s.mem.cache n).map (·.hash) ≠ some e.hash) := by
+    simp [hv, hh]
+  rw [if_neg hc]
+  cases hwn : s.disk.wait n with
+  | none => exact absurd hwn hw
+  | some i =>
+    simp only [List.filterMap_append, toCache_no_fqPush, List.filterMap_map]
+    constructor
+    · simp only [List.filterMap_cons, List.filterMap_nil, fqOf, List.nil_append, List.append_nil]
+      induction (s.mem.wait.filter (fun w => w.1 == n)) with
+      | nil => rfl
+      | cons w ws ih => simp [fqOf, ih]
+    · simp
+
+/-- … and in every other case `finalize` pushes nothing onto the finalize queue. -/
+theorem nothing_released_otherwise (s : State) (n : Name) (e : Entry) (now : Int)
+    (h : stateOf s.mem n ≠ some .validated ∨ (s.mem.cache n).map (·.hash) ≠ some e.hash ∨
+         s.disk.wait n = none) :
+    (finalizeEffects s n e now).filterMap fqOf = [] := by
+  unfold finalizeEffects
+  by_cases hc : stateOf s.mem n ≠ some .validated ∨ (s.mem.cache n).map (·.hash) ≠ some e.hash
+  · rw [if_pos hc]; simp [fqOf]
+  · rw [if_neg hc]
+    have hw : s.disk.wait n = none := by
+      rcases h with h | h | h
+      · exact absurd (Or.inl h) hc
+      · exact absurd (Or.inr h) hc
+      · exact h
+    simp [hw, fqOf]
+
+/-! ## the cleaner gives the order up only on cycles of the wait map -/
+
+/-- `WaitsPath m a b`: there is a non-empty chain `a ← w₁ ← … ← b` in the wait map
+    (`(q, w, _) ∈ m.wait` means `w` waits on `q`): `w₁` waits on `a`, each next element waits
+    on the previous one, the last element is `b`. `WaitsPath m p p` says `p` lies on a cycle. -/
+inductive WaitsPath (m : Mem) : Name → Name → Prop
+  | edge {a b : Name} {e : Entry} : (a, b, e) ∈ m.wait → WaitsPath m a b
+  | step {a b c : Name} {e : Entry} : WaitsPath m a b → (b, c, e) ∈ m.wait → WaitsPath m a c
+
+theorem mem_waitersOf (m : Mem) (q w : Name) : w ∈ waitersOf m q ↔ ∃ e, (q, w, e) ∈ m.wait := by
+  simp only [waitersOf, List.mem_map, List.mem_filter, beq_iff_eq]
+  constructor
+  · rintro ⟨⟨q', w', e⟩, ⟨hm, hq⟩, rfl⟩
+    simp only at hq; subst hq
+    exact ⟨e, hm⟩
+  · rintro ⟨e, hm⟩
+    exact ⟨(q, w, e), ⟨hm, rfl⟩, rfl⟩
+
+theorem detectLoopAux_sound (m : Mem) (start : Name) :
+    ∀ (f : Nat) (paths seen : List Name),
+      (∀ x ∈ paths, x = start ∨ WaitsPath m start x) →
+      detectLoopAux m start f paths seen = true → WaitsPath m start start := by
+  intro f
+  induction f with
+  | zero => intro paths seen _ h; simp [detectLoopAux] at h
+  | succ f ih =>
+    intro paths seen hp h
+    have hws : ∀ w ∈ paths.flatMap (waitersOf m), WaitsPath m start w := by
+      intro w hw
+      simp only [List.mem_flatMap] at hw
+      obtain ⟨x, hx, hwx⟩ := hw
+      obtain ⟨e, he⟩ := (mem_waitersOf m x w).mp hwx
+      rcases hp x hx with rfl | hpx
+      · exact WaitsPath.edge he
+      · exact WaitsPath.step hpx he
+    unfold detectLoopAux at h
+    simp only at h
+    split at h
+    · rename_i hc
+      exact hws start (by simpa using hc)
+    · split at h
+      · simp at h
+      · refine ih _ _ ?_ h
+        intro x hx
+        rw [List.mem_eraseDups, List.mem_filter] at hx
+        exact Or.inr (hws x hx.1)
+
+/-- **detectLoop_sound**: `detectWaitLoop(p)` answers true only if `p` lies on a cycle of the
+    waits-on relation. -/
+theorem detectLoop_sound (m : Mem) (p : Name) (h : detectLoop m p = true) : WaitsPath m p p :=
+  detectLoopAux_sound m p _ [p] [] (by simp) h
+
+/-- a chain starts with somebody waiting on its origin -/
+theorem WaitsPath.first {m : Mem} {a b : Name} (h : WaitsPath m a b) :
+    ∃ x e, (a, x, e) ∈ m.wait := by
+  induction h with
+  | edge he => exact ⟨_, _, he⟩
+  | step _ _ ih => exact ih
+
+/-- **cleanWaiting_only_on_cycle**: one step of the cleaner (candidate `c`, predecessor
+    `c.prev`) leaves the state and the primitive list unchanged unless `detectLoop` is true for
+    the candidate's predecessor … -/
+theorem cleanWaiting_only_on_cycle (acc : State × List Prim) (c : Name × Entry)
+    (h : detectLoop acc.1.mem c.2.prev = false) : cleanWaitingStep acc c = acc := by
+  unfold cleanWaitingStep
+  simp only [h]
+  split <;> simp
+
+/-- … hence only when the predecessor lies on a cycle of the wait map; and then the files
+    whose predecessor it clears are the validated files parked on that cycle member. -/
+theorem cleanWaitingStep_spec (acc : State × List Prim) (c : Name × Entry) :
+    cleanWaitingStep acc c = acc ∨
+    (WaitsPath acc.1.mem c.2.prev c.2.prev ∧
+      ∃ ps, cleanWaitingStep acc c = (run acc.1 ps, acc.2 ++ ps) ∧
+        ∀ n e, Prim.cacheSet n e ∈ ps →
+          ∃ en f, (c.2.prev, n, en) ∈ acc.1.mem.wait ∧ acc.1.mem.cache n = some f ∧
+            f.state = .validated ∧ e = { f with prev := "" }) := by
+  cases hd : detectLoop acc.1.mem c.2.prev with
+  | false => exact Or.inl (cleanWaiting_only_on_cycle acc c hd)
+  | true =>
+    by_cases hw : isWaitingName acc.1.mem c.2.prev = true
+    · refine Or.inr ⟨detectLoop_sound _ _ hd, ?_⟩
+      unfold cleanWaitingStep
+      simp only [hd, hw, Bool.not_true, Bool.false_eq_true, if_false]
+      refine ⟨_, rfl, ?_⟩
+      intro n e hmem
+      simp only [List.mem_append, List.mem_singleton, List.mem_flatMap, List.mem_filter,
+        beq_iff_eq, reduceCtorEq, false_or] at hmem
+      obtain ⟨⟨q, w, en⟩, ⟨hwm, hq⟩, hin⟩ := hmem
+      simp only at hq hin
+      subst hq
+      split at hin
+      · rename_i f hf
+        split at hin
+        · rename_i hv
+          simp only [List.mem_cons, reduceCtorEq, Prim.cacheSet.injEq, List.not_mem_nil, or_false,
+            false_or] at hin
+          obtain ⟨rfl, rfl⟩ := hin
+          exact ⟨en, f, hwm, hf, hv, rfl⟩
+        · simp at hin
+      · simp at hin
+    · left
+      unfold cleanWaitingStep
+      simp [hw]
+
+/-- without a cycle in the wait map the cleaner does nothing at all -/
+theorem cleanWaiting_noop_without_cycle (s : State) (names : List Name)
+    (h : ∀ p, detectLoop s.mem p = false) : cleanWaitingEffects s names = [] := by
+  unfold cleanWaitingEffects
+  simp only
+  generalize (List.foldl (fun acc x => insertBySeq x acc) [] _) = sorted
+  suffices ∀ l : List (Name × Entry), l.foldl cleanWaitingStep (s, []) = (s, []) by rw [this]
+  intro l
+  induction l with
+  | nil => rfl
+  | cons c cs ih =>
+    rw [List.foldl_cons, cleanWaiting_only_on_cycle (s, []) c (h _)]
+    exact ih
+
+/-! ## non-vacuity and the S6 witness -/
+
+/-- constant "hash" for concrete runs -/
+def exH : Body → String := fun _ => "h"
+
+/-- a whole file `n` announcing predecessor `prev` arrives in one part and is validated -/
+def exRecv (n prev : String) : List Ev := [
+  .op (.prepare n 2 0), .op (.recvOpen 1 n), .op (.recvWrite 1 0 [1, 2] 0),
+  .op (.record n ⟨"", prev, 2, "h"⟩ 0 2 0), .op (.process n 0)]
+
+/-- `b` (predecessor `a`) arrives and is handled first: it is parked, `a` is delivered, `b`
+    is released and delivered. -/
+def exAB : List Ev := exRecv "b" "a" ++ exRecv "a" "" ++
+  [.op (.finh "b" 0), .op (.finh "a" 0), .op (.finh "b" 0)]
+
+/-- `b` was really held: after its first pass through the finalize handler it is parked on
+    `a`, reported as waiting, and the log is still empty -/
+example :
+    let s := runEvs exH init (exRecv "b" "a" ++ exRecv "a" "" ++ [.op (.finh "b" 0)])
+    s.mem.wait.map (fun w => (w.1, w.2.1)) = [("a", "b")] ∧ statusAnswer s "b" = 3 ∧
+      s.disk.log = [] := by decide
+
+/-- `finalized_implies_logged` and `log_order_respects_prev` speak about non-trivial states -/
+example : ∃ s, Reachable exH s ∧ stateOf s.mem "b" = some .finalized ∧
+    ∃ pre r post, s.disk.log = pre ++ r :: post ∧ r.prev ≠ "" ∧ r.prev ≠ r.name ∧
+      r.name = "b" ∧ pre.map (·.name) = ["a"] :=
+  ⟨runEvs exH init exAB, ⟨exAB, rfl⟩, by decide,
+   [⟨"a", "", "h", 2, 0, ""⟩], ⟨"b", "", "h", 2, 0, "a"⟩, [], by decide, by decide, by decide,
+   rfl, by decide⟩
+
+/-- `released_when_pred_delivered` on a state where `b` is parked on `a` -/
+example :
+    let s := runEvs exH init (exRecv "b" "a" ++ exRecv "a" "" ++ [.op (.finh "b" 0)])
+    ∃ e, stateOf s.mem "a" = some .validated ∧ (s.mem.cache "a").map (·.hash) = some e.hash ∧
+      s.disk.wait "a" ≠ none ∧
+      ((finalizeEffects s "a" e 0).filterMap fqOf).map (·.1) = ["b"] :=
+  ⟨⟨"", "", "h", 2, .validated, none, 0, false, 0, none⟩, by decide, by decide, by decide, by decide⟩
+
+/-- three files: `a` and `b` announce each other (a cycle), `c` announces `b` (parked on a
+    cycle member, not itself on the cycle); all three validated and parked. -/
+def exS6 : List Ev := exRecv "a" "b" ++ exRecv "b" "a" ++ exRecv "c" "b" ++
+  [.op (.finh "a" 0), .op (.finh "b" 0), .op (.finh "c" 0)]
+
+example : detectLoop (runEvs exH init exS6).mem "b" = true := by decide
+
+/-- **S6 witness**: in the reachable state `exS6` the file `c` is not on a cycle of the wait
+    map (nothing waits on it), it waits on `b`, and one run of the cleaner clears its
+    predecessor and re-enqueues it together with the cycle member `a`: `cleanWaiting` gives
+    the order up for files that are merely parked on a member of a cycle. -/
+theorem S6_cleaner_clears_off_cycle_file :
+    let s := runEvs exH init exS6
+    let s' := run s (cleanWaitingEffects s ["a", "b", "c"])
+    Reachable exH s ∧ (¬ ∃ x, WaitsPath s.mem "c" x) ∧
+    s.mem.wait.map (fun w => (w.1, w.2.1)) = [("b", "a"), ("a", "b"), ("b", "c")] ∧
+    (s.mem.cache "c").map (·.prev) = some "b" ∧
+    (s'.mem.cache "c").map (·.prev) = some "" ∧ s'.mem.fq.map (·.1) = ["a", "c"] := by
+  refine ⟨⟨exS6, rfl⟩, ?_, by decide, by decide, by decide, by decide⟩
+  rintro ⟨x, hx⟩
+  obtain ⟨y, e, hm⟩ := hx.first
+  have : ∀ w ∈ (runEvs exH init exS6).mem.wait, w.1 ≠ "c" := by decide
+  exact this _ hm rfl
 
 end Sts.Stage
